@@ -71,7 +71,7 @@ var properties = map[string]propSpec{
 	},
 	"C16": {
 		Level: "model_checking", Technique: techSX + "; a harness-side printer with symbolic layout/style choices feeds the real parser",
-		Bounds:  [2]string{"trees of depth <= 2 over {not, and, or, any/all in 4 binding modes} with one symbolic leaf (symbolic identifier byte, 8 operators, 4 selector spellings, 5 literal styles with a symbolic byte) and fixed other leaves; per node: optional/required whitespace drawn from {none, space, tab, newline, CR, double}, redundant parentheses; all 4 and/or chains of three operands; quoted literals: 2 verbatim bytes, 2 raw bytes, every single byte via \\xHH, a corpus of nasty strings", "trees of depth <= 3"},
+		Bounds:  [2]string{"trees of depth <= 2 over {not, and, or, any/all in 4 binding modes} with one symbolic leaf (symbolic identifier byte, 8 operators, 4 selector spellings, 5 literal styles with a symbolic byte) and fixed other leaves; per node: optional/required whitespace drawn from {none, space, tab, newline, CR, double}, redundant parentheses; all 4 and/or chains of three operands; quoted literals: 2 verbatim bytes, 2 raw bytes, every single byte via \\xHH, a corpus of nasty strings", "as quick with all six whitespace forms, all binding modes; plus trees of depth 3 over not/and/or with the default layout"},
 		Outside: "deeper trees; more than one symbolic leaf per tree; literals longer than 2 symbolic bytes; `\\\"` inside double quotes is not expressible in the language (literal ends at the first quote)",
 		StepBudget: 600_000_000,
 	},
